@@ -79,5 +79,10 @@ HonestViolations(o) ==
   (IF o.reIssued /\ ~o.reOpensRight THEN {"second-response-does-not-open-with-the-requesting-key"} ELSE {}) \cup
   (IF o.reIssued /\ o.reOpensOld THEN {"second-response-opens-with-the-replaced-key"} ELSE {}) \cup
   (IF o.reIssued /\ o.reOpensRight /\ ~o.reEcho THEN {"second-response-does-not-echo-the-nonce"} ELSE {}) \cup
-  (IF o.reIssued /\ o.reOpensRight /\ ~o.reStoredEq THEN {"second-stored-record-differs-from-response"} ELSE {})
+  (IF o.reIssued /\ o.reOpensRight /\ ~o.reStoredEq THEN {"second-stored-record-differs-from-response"} ELSE {}) \cup
+  \* third stage: the server's roots were replaced and the node fetched again with the same credentials (overwriting
+  \* back ends): whatever is answered is signed by the PRESENT current root and carries one chain per present root
+  (IF o.rrIssued /\ ~o.rrOpens THEN {"response-after-root-change-does-not-open-with-the-requesting-key"} ELSE {}) \cup
+  (IF o.rrIssued /\ ~o.rrSigCur THEN {"response-after-root-change-not-signed-by-current-root"} ELSE {}) \cup
+  (IF o.rrIssued /\ o.rrOpens /\ ~o.rrChainRoots THEN {"response-after-root-change-not-one-chain-per-present-root"} ELSE {})
 =============================================================================
